@@ -910,9 +910,111 @@ func layer5(t *testing.T, r *vp.Recorder) {
 	}
 }
 
+// layer6: "the configured allow filter" is what the receiver's options say,
+// applied in the order given: every list of <= 3 options over {a filter that
+// rejects peer D, a filter that rejects peer E, a nil filter (documented: allows
+// all), address filtering on, address filtering off}. For each receiver: fresh
+// CIDs announced by D, by E and by a third peer are delivered exactly when the
+// last filter option of the list (none: allow all) lets the peer pass, and with
+// private addresses removed exactly when the last address-filtering option says so.
+func layer6(t *testing.T, r *vp.Recorder) {
+	pD, pE, pF := fixture.Key("ed25519", 41).ID, fixture.Key("ed25519", 42).ID, fixture.Key("ed25519", 43).ID
+	type optSym struct {
+		name  string
+		opt   func() announce.Option
+		allow func(peer.ID) bool // nil: not a filter option
+		setsF bool               // sets address filtering
+		onF   bool
+	}
+	syms := []optSym{
+		{name: "allow(not D)", opt: func() announce.Option { return announce.WithAllowPeer(func(p peer.ID) bool { return p != pD }) }, allow: func(p peer.ID) bool { return p != pD }},
+		{name: "allow(not E)", opt: func() announce.Option { return announce.WithAllowPeer(func(p peer.ID) bool { return p != pE }) }, allow: func(p peer.ID) bool { return p != pE }},
+		{name: "allow(nil)", opt: func() announce.Option { return announce.WithAllowPeer(nil) }, allow: func(peer.ID) bool { return true }},
+		{name: "filter-ips(on)", opt: func() announce.Option { return announce.WithFilterIPs(true) }, setsF: true, onF: true},
+		{name: "filter-ips(off)", opt: func() announce.Option { return announce.WithFilterIPs(false) }, setsF: true, onF: false},
+	}
+	var lists [][]int
+	var gen func(cur []int)
+	gen = func(cur []int) {
+		lists = append(lists, append([]int(nil), cur...))
+		if len(cur) == 3 {
+			return
+		}
+		for i := range syms {
+			gen(append(cur, i))
+		}
+	}
+	gen(nil)
+	pub := multiaddr.StringCast("/ip4/8.8.4.4/tcp/3104/http")
+	priv := multiaddr.StringCast("/ip4/10.1.2.3/tcp/3104/http")
+	n := 0
+	for _, l := range lists {
+		var names []string
+		for _, i := range l {
+			names = append(names, syms[i].name)
+		}
+		key := "options|" + strings.Join(names, ",")
+		if !r.Mine(key) {
+			continue
+		}
+		r.Eval(key, len(l) > 1)
+		r.Trace(1)
+		r.State(key)
+		allow := func(peer.ID) bool { return true }
+		filter := false
+		var opts []announce.Option
+		for _, i := range l {
+			opts = append(opts, syms[i].opt())
+			if syms[i].allow != nil {
+				allow = syms[i].allow
+			}
+			if syms[i].setsF {
+				filter = syms[i].onF
+			}
+		}
+		var bad string
+		synctest.Test(t, func(t *testing.T) {
+			rc, err := announce.NewReceiver(nil, "", opts...)
+			if err != nil {
+				bad = "NewReceiver: " + err.Error()
+				return
+			}
+			defer rc.Close()
+			for _, p := range []peer.ID{pD, pE, pF, pD} {
+				n++
+				c := cidN(9000 + n)
+				got, a, err := deliver(rc, c, p, []multiaddr.Multiaddr{priv, pub})
+				who := map[peer.ID]string{pD: "D", pE: "E", pF: "F"}[p]
+				switch {
+				case err != nil:
+					bad = fmt.Sprintf("Direct from %s: %v", who, err)
+				case got != allow(p):
+					bad = fmt.Sprintf("options [%s]: a fresh CID announced by peer %s: delivered=%v, the configured filter says %v", strings.Join(names, ", "), who, got, allow(p))
+				case got && (a.PeerID != p || !a.Cid.Equals(c)):
+					bad = "delivered announcement carries another CID or peer"
+				case got && filter && len(a.Addrs) != 1:
+					bad = fmt.Sprintf("options [%s]: address filtering is on, delivered addresses %v", strings.Join(names, ", "), a.Addrs)
+				case got && !filter && len(a.Addrs) != 2:
+					bad = fmt.Sprintf("options [%s]: address filtering is off, delivered addresses %v", strings.Join(names, ", "), a.Addrs)
+				}
+				if bad != "" {
+					return
+				}
+			}
+		})
+		r.Transition(4)
+		if bad != "" {
+			r.Outcome("mismatch")
+			r.Violation("options:configured-filter-not-the-one-applied", key, bad, nil)
+		} else {
+			r.Outcome("options-agree")
+		}
+	}
+}
+
 func TestCheck(t *testing.T) {
 	r := vp.New("C09", "model_checking",
-		"three layers, all against one reference model (allow predicate, then an LRU set with refresh-on-hit and explicit removal): (1) the LRU object (test-only export) at capacities 1..3 over capacity+2 strings: every sequence of exactly `depth` update/remove operations, return value and length compared after every step; (2) the real receiver (no pubsub) at its real capacity: a fill prefix of exactly capacity distinct CIDs (three variants: plain, one refreshed in the middle, one un-cached and re-announced) followed by every sequence of <= N operations over {announce oldest / second-oldest / newest / a fresh CID / a fresh CID from a denied peer / the oldest CID from a denied peer / the CID evicted last / the CID added last / a burst of capacity-1 fresh CIDs / the same digest as the newest or the oldest under another codec, un-cache oldest / newest / the other-codec variant of the newest}; after each announcement a consumer calls Next and quiescence in a synctest bubble decides delivered / not delivered; (3) every address list of <= M over 19 addresses (public, private ranges, loopback, unspecified, unique-local, localhost; the IP followed by tcp, udp, sctp, tls, http or nothing) with filtering on and off; (4) the pubsub path: every sequence of <= K messages over {plain from F, republished by relay R for origin O, republished for a denied origin, plain from a denied peer, republished by a denied relay for O, own republication, republished by R for an original publisher that is the receiver's own host, malformed payload, direct announcement with resend (of O and of the receiver's own host; the republication is read from a second subscription on the topic and must name the announced publisher), repeats of the previous CID}, delivery / non-delivery and attribution decided by quiescence; (5) announce.Send through the library's pubsub sender on the receiver's topic for every ordered pair of 6 CIDs that share digests across versions and codecs (CIDv0 included): sent, sent again, the second CID, un-cached and sent again; the delivered CID, publisher and addresses are the sent ones. states = distinct sequences; transitions = operations; traces = sequences executed on the real code.",
+		"three layers, all against one reference model (allow predicate, then an LRU set with refresh-on-hit and explicit removal): (1) the LRU object (test-only export) at capacities 1..3 over capacity+2 strings: every sequence of exactly `depth` update/remove operations, return value and length compared after every step; (2) the real receiver (no pubsub) at its real capacity: a fill prefix of exactly capacity distinct CIDs (three variants: plain, one refreshed in the middle, one un-cached and re-announced) followed by every sequence of <= N operations over {announce oldest / second-oldest / newest / a fresh CID / a fresh CID from a denied peer / the oldest CID from a denied peer / the CID evicted last / the CID added last / a burst of capacity-1 fresh CIDs / the same digest as the newest or the oldest under another codec, un-cache oldest / newest / the other-codec variant of the newest}; after each announcement a consumer calls Next and quiescence in a synctest bubble decides delivered / not delivered; (3) every address list of <= M over 19 addresses (public, private ranges, loopback, unspecified, unique-local, localhost; the IP followed by tcp, udp, sctp, tls, http or nothing) with filtering on and off; (4) the pubsub path: every sequence of <= K messages over {plain from F, republished by relay R for origin O, republished for a denied origin, plain from a denied peer, republished by a denied relay for O, own republication, republished by R for an original publisher that is the receiver's own host, malformed payload, direct announcement with resend (of O and of the receiver's own host; the republication is read from a second subscription on the topic and must name the announced publisher), repeats of the previous CID}, delivery / non-delivery and attribution decided by quiescence; (5) announce.Send through the library's pubsub sender on the receiver's topic for every ordered pair of 6 CIDs that share digests across versions and codecs (CIDv0 included): sent, sent again, the second CID, un-cached and sent again; the delivered CID, publisher and addresses are the sent ones; (6) receivers built from every list of <=3 options over {two different allow filters, a nil filter, address filtering on, off}: delivery and address filtering follow the last option of each kind. states = distinct sequences; transitions = operations; traces = sequences executed on the real code.",
 		"reference model is the oracle (trusted, 30 lines)",
 		"pubsub path (layer 4): one libp2p host without transports and one gossipsub topic inside a synctest bubble; messages are injected on the topic under arbitrary author identities; multi-host gossip is not driven",
 		"non-public is judged by net.IP.IsLoopback/IsPrivate/IsUnspecified and the name localhost, independently of go-multiaddr's own classification",
@@ -933,5 +1035,6 @@ func TestCheck(t *testing.T) {
 	layer3(t, r, d3)
 	layer4(t, r, d4)
 	layer5(t, r)
+	layer6(t, r)
 	t.Logf("violations: %d", r.Violations())
 }
